@@ -313,7 +313,7 @@ func (a *Adapter) Apply(ctx sdk.Context, op graph.Op) (sdk.Context, string) {
 		a.putEnv(ctx, e)
 	case "ExtDeposit":
 		e := a.getEnv(ctx)
-		e.Queue = append(e.Queue, Event{T: "dep", H: e.ExtH, A: 0, U: op.Str("u"), Amt: op.Int("a"), Ok: true})
+		e.Queue = append(e.Queue, Event{T: op.Str("e"), H: e.ExtH, A: 0, U: op.Str("u"), Amt: op.Int("a"), Ok: true})
 		e.Ndep++
 		e.ExtIn += op.Int("a")
 		a.putEnv(ctx, e)
@@ -362,6 +362,12 @@ func (a *Adapter) Apply(ctx sdk.Context, op graph.Op) (sdk.Context, string) {
 		case "dep":
 			err = a.claim(ctx, &types.MsgSendToFxClaim{ChainName: ch, BridgerAddress: bridger, EventNonce: n, BlockHeight: uint64(ev.H), TokenContract: a.tok,
 				Amount: unit.MulRaw(ev.Amt), Sender: world.DetExt(ch + "/extsender"), Receiver: a.user(ev.U).AccAddress().String()})
+		case "depc":
+			// an inbound bridge call that carries tokens to an account (no contract at the target)
+			ext := world.DetExt(ch + "/extsender")
+			err = a.claim(ctx, &types.MsgBridgeCallClaim{ChainName: ch, BridgerAddress: bridger, EventNonce: n, BlockHeight: uint64(ev.H), Sender: ext, Refund: ext,
+				To: a.user(ev.U).Address().Hex(), TokenContracts: []string{a.tok}, Amounts: []sdkmath.Int{unit.MulRaw(ev.Amt)}, Data: "", Value: sdkmath.ZeroInt(),
+				Memo: "", TxOrigin: ext})
 		case "batch":
 			err = a.claim(ctx, &types.MsgSendToExternalClaim{ChainName: ch, BridgerAddress: bridger, EventNonce: n, BlockHeight: uint64(ev.H), BatchNonce: uint64(ev.A), TokenContract: a.tok})
 		case "call":
@@ -373,7 +379,7 @@ func (a *Adapter) Apply(ctx sdk.Context, op graph.Op) (sdk.Context, string) {
 		}
 		e.Queue = e.Queue[1:]
 		switch ev.T {
-		case "dep":
+		case "dep", "depc":
 			e.ObsDep += ev.Amt
 		case "batch":
 			e.ObsOut += ev.Amt
@@ -559,6 +565,12 @@ func (a *Adapter) Project(ctx sdk.Context) any {
 		switch x := cl.(type) {
 		case *types.MsgSendToFxClaim:
 			parked[n-1] = Event{T: "dep", H: int64(x.BlockHeight), A: 0, U: a.userName(sdk.MustAccAddressFromBech32(x.Receiver)), Amt: units(x.Amount), Ok: true}
+		case *types.MsgBridgeCallClaim:
+			amt := int64(0)
+			for _, x := range x.Amounts {
+				amt += units(x)
+			}
+			parked[n-1] = Event{T: "depc", H: int64(x.BlockHeight), A: 0, U: a.userName(x.GetToAddr().Bytes()), Amt: amt, Ok: true}
 		case *types.MsgBridgeCallResultClaim:
 			amt := int64(-1)
 			if oc, found := a.K.GetOutgoingBridgeCallByNonce(ctx, x.Nonce); found {
